@@ -27,7 +27,10 @@ def order : Expr → List Nat
   | .list es => orders es
   | .set es => orders es
   | .dict kvs => orderKVs kvs
-  | .lambda0 _ => []
+  | .lambda _ ds kds _ => orders ds ++ orderKWs kds     -- defaults at definition time; nothing from the body
+  | .slice3 l h st => order l ++ (order h ++ order st)
+  | .callx f args kws star dstar =>
+      order f ++ (orders args ++ (orderKWs kws ++ (orderOpt star ++ orderOpt dstar)))
 def orders : Exprs → List Nat
   | .nil => []
   | .cons e es => order e ++ orders es
@@ -37,6 +40,12 @@ def orderTail : CmpTail → List Nat
 def orderKVs : KVs → List Nat
   | .nil => []
   | .cons k v r => order v ++ (order k ++ orderKVs r)
+def orderKWs : KWs → List Nat
+  | .nil => []
+  | .cons _ e r => order e ++ orderKWs r
+def orderOpt : OptE → List Nat
+  | .none => []
+  | .some e => order e
 end
 
 mutual
@@ -58,7 +67,9 @@ def NoCall : Expr → Prop
   | .list es => NoCalls es
   | .set es => NoCalls es
   | .dict kvs => NoCallKVs kvs
-  | .lambda0 _ => True
+  | .lambda _ ds kds _ => NoCalls ds ∧ NoCallKWs kds
+  | .slice3 l h st => NoCall l ∧ NoCall h ∧ NoCall st
+  | .callx _ _ _ _ _ => False
 def NoCalls : Exprs → Prop
   | .nil => True
   | .cons e es => NoCall e ∧ NoCalls es
@@ -68,6 +79,9 @@ def NoCallTail : CmpTail → Prop
 def NoCallKVs : KVs → Prop
   | .nil => True
   | .cons k v r => NoCall k ∧ NoCall v ∧ NoCallKVs r
+def NoCallKWs : KWs → Prop
+  | .nil => True
+  | .cons _ e r => NoCall e ∧ NoCallKWs r
 end
 
 def Res.world {X W α : Type} : Res X W α → W
@@ -94,7 +108,8 @@ structure LogDiscipline : Prop where
   mkSlice : ∀ a b w, logOf (P.mkSlice a b w).world = logOf w
   newDict : ∀ w, logOf (P.newDict w).world = logOf w
   dictSet : ∀ d k v w, logOf (P.dictSet d k v w).world = logOf w
-  mkFunction : ∀ c q w, logOf (P.mkFunction c q w).world = logOf w
+  mkSlice3 : ∀ a b c w, logOf (P.mkSlice3 a b c w).world = logOf w
+  mkFunction : ∀ c q ds kds w, logOf (P.mkFunction c q ds kds w).world = logOf w
 
 /-- the computation extends the log by a sub-sequence of `o` -/
 def Ext {α : Type} (r : Res X W α) (w : W) (o : List Nat) : Prop :=
@@ -203,9 +218,20 @@ theorem extE (e : Expr) (w : W) (hn : NoCall e) : Ext logOf (evalE P e w) w (ord
     simp only [evalE, order]
     exact Ext.mono (Ext.bind (o1 := []) (Ext.quiet (hL.newDict w) []) fun d w1 _ => extKVs d kvs w1 hn)
       (by simp)
-  | lambda0 b =>
+  | lambda sg ds kds b =>
+    simp only [NoCall] at hn
     simp only [evalE, order]
-    exact Ext.quiet (hL.mkFunction _ _ w) _
+    refine Ext.bind (extEs ds w hn.1) fun dvs w1 _ => ?_
+    exact Ext.mono (Ext.bind (extKWs kds w1 hn.2) fun kvs w2 _ =>
+      Ext.quiet (hL.mkFunction _ _ dvs kvs w2) []) (by simp)
+  | slice3 l h st =>
+    simp only [NoCall] at hn
+    simp only [evalE, order]
+    refine Ext.bind (extE l w hn.1) fun vl w1 _ => ?_
+    refine Ext.bind (extE h w1 hn.2.1) fun vh w2 _ => ?_
+    exact Ext.mono (Ext.bind (extE st w2 hn.2.2) fun vs w3 _ =>
+      Ext.quiet (hL.mkSlice3 vl vh vs w3) []) (by simp)
+  | callx f args kws star dstar => simp only [NoCall] at hn
 theorem extEs (es : Exprs) (w : W) (hn : NoCalls es) : Ext logOf (evalEs P es w) w (orders es) := by
   cases es with
   | nil => simp only [evalEs, orders]; exact Ext.pure _ _ _
@@ -253,6 +279,15 @@ theorem extKVs (d : V) (kvs : KVs) (w : W) (hn : NoCallKVs kvs) :
     refine Ext.bind (extE k w1 hn.1) fun vk w2 _ => ?_
     exact Ext.mono (Ext.bind (o1 := []) (Ext.quiet (hL.dictSet d vk vv w2) []) fun _ w3 _ =>
       extKVs d rest w3 hn.2.2) (by simp)
+theorem extKWs (kws : KWs) (w : W) (hn : NoCallKWs kws) :
+    Ext logOf (evalKWs P kws w) w (orderKWs kws) := by
+  cases kws with
+  | nil => simp only [evalKWs, orderKWs]; exact Ext.pure _ _ _
+  | cons n e rest =>
+    simp only [NoCallKWs] at hn
+    simp only [evalKWs, orderKWs]
+    refine Ext.bind (extE e w hn.1) fun v w1 _ => ?_
+    exact Ext.mono (Ext.bind (extKWs rest w1 hn.2) fun r w2 _ => Ext.pure _ _ []) (by simp)
 end
 
 end
